@@ -6,6 +6,269 @@ import SfsModel.Model.Spectrum
 import SfsModel.Lemmas.Index
 import SfsModel.Lemmas.Odometer
 import SfsModel.Lemmas.SumBox
+import SfsModel.Props.C19
 import Mathlib.Algebra.BigOperators.Group.Finset.Basic
 namespace Sfs
+open Finset
+
+/-! ### dropping a set of positions from a list -/
+
+/-- `dropFrom A l n`: delete from `l` the entries whose position (counted from `n`) is listed in `A`. -/
+def dropFrom {β} (A : List Nat) (l : List β) (n : Nat) : List β :=
+  ((l.zipIdx n).filter (fun p => !A.contains p.2)).map (·.1)
+
+/-- Same body as `Sfs.C04.dropAxes` (definitionally equal). -/
+def dropIdx {β} (A : List Nat) (l : List β) : List β := dropFrom A l 0
+
+theorem dropFrom_nil {β} (A : List Nat) (n : Nat) : dropFrom A ([] : List β) n = [] := rfl
+
+theorem dropFrom_cons {β} (A : List Nat) (y : β) (l : List β) (n : Nat) :
+    dropFrom A (y :: l) n = if n ∈ A then dropFrom A l (n + 1) else y :: dropFrom A l (n + 1) := by
+  unfold dropFrom
+  rw [List.zipIdx_cons, List.filter_cons]
+  by_cases h : n ∈ A <;> simp [h]
+
+theorem dropFrom_congr {β} (A B : List Nat) : ∀ (l : List β) (n m : Nat),
+    (∀ i, i < l.length → (n + i ∈ A ↔ m + i ∈ B)) → dropFrom A l n = dropFrom B l m
+  | [], _, _, _ => rfl
+  | y :: l, n, m, h => by
+    have h0 := h 0 (by simp)
+    have ih := dropFrom_congr A B l (n + 1) (m + 1) (fun i hi => by
+      have := h (i + 1) (by simpa using hi)
+      rwa [show n + 1 + i = n + (i + 1) by omega, show m + 1 + i = m + (i + 1) by omega])
+    simp only [Nat.add_zero] at h0
+    rw [dropFrom_cons, dropFrom_cons, ih]
+    by_cases hn : n ∈ A
+    · rw [if_pos hn, if_pos (h0.mp hn)]
+    · rw [if_neg hn, if_neg (fun hm => hn (h0.mpr hm))]
+
+theorem dropFrom_removeAt {β} (A B : List Nat) : ∀ (l : List β) (x n : Nat),
+    (∀ i, i < x → (n + i ∈ A ↔ n + i ∈ B)) → n + x ∈ B →
+    (∀ i, x ≤ i → (n + i ∈ A ↔ n + i + 1 ∈ B)) →
+    dropFrom A (removeAt l x) n = dropFrom B l n
+  | [], x, n, _, _, _ => by simp [removeAt, dropFrom_nil]
+  | y :: l, 0, n, _, h2, h3 => by
+    rw [removeAt_zero, dropFrom_cons, if_pos (by simpa using h2)]
+    apply dropFrom_congr
+    intro i _
+    have := h3 i (Nat.zero_le _)
+    rwa [show n + 1 + i = n + i + 1 by omega]
+  | y :: l, x + 1, n, h1, h2, h3 => by
+    have ih := dropFrom_removeAt A B l x (n + 1)
+      (fun i hi => by
+        have := h1 (i + 1) (by omega)
+        rwa [show n + 1 + i = n + (i + 1) by omega])
+      (by rwa [show n + 1 + x = n + (x + 1) by omega])
+      (fun i hi => by
+        have := h3 (i + 1) (by omega)
+        rwa [show n + 1 + i = n + (i + 1) by omega])
+    have h0 := h1 0 (by omega)
+    simp only [Nat.add_zero] at h0
+    rw [removeAt_succ, dropFrom_cons, dropFrom_cons, ih]
+    by_cases hn : n ∈ A
+    · rw [if_pos hn, if_pos (h0.mp hn)]
+    · rw [if_neg hn, if_neg (fun hm => hn (h0.mpr hm))]
+
+theorem dropIdx_nil_left {β} (l : List β) : dropIdx [] l = l := by
+  unfold dropIdx
+  generalize 0 = n
+  induction l generalizing n with
+  | nil => rfl
+  | cons y l ih => rw [dropFrom_cons, if_neg (by simp), ih]
+
+theorem dropIdx_congr {β} (A B : List Nat) (l : List β) (h : ∀ i, i ∈ A ↔ i ∈ B) :
+    dropIdx A l = dropIdx B l :=
+  dropFrom_congr A B l 0 0 (fun i _ => by simpa using h i)
+
+/-- Removing position `x` first and then the re-indexed remaining positions is the joint removal. -/
+theorem dropIdx_removeAt {β} (x : Nat) (A : List Nat) (hx : x ∉ A) (l : List β) :
+    dropIdx (A.map (fun y => if y > x then y - 1 else y)) (removeAt l x) = dropIdx (x :: A) l := by
+  apply dropFrom_removeAt
+  · intro i hi
+    simp only [Nat.zero_add, List.mem_map, List.mem_cons]
+    constructor
+    · rintro ⟨y, hy, rfl⟩
+      by_cases hyx : y > x
+      · rw [if_pos hyx] at hi; omega
+      · rw [if_neg hyx]; exact Or.inr hy
+    · rintro (rfl | h)
+      · omega
+      · exact ⟨i, h, by rw [if_neg (by omega)]⟩
+  · simp
+  · intro i hi
+    simp only [Nat.zero_add, List.mem_map, List.mem_cons]
+    constructor
+    · rintro ⟨y, hy, rfl⟩
+      by_cases hyx : y > x
+      · rw [if_pos hyx]; right; rwa [show y - 1 + 1 = y by omega]
+      · rw [if_neg hyx] at hi
+        have : y = x := by omega
+        subst this; exact absurd hy hx
+    · rintro (h | h)
+      · omega
+      · exact ⟨i + 1, h, by rw [if_pos (by omega)]; omega⟩
+
+theorem dropIdx_singleton {β} (x : Nat) (l : List β) : dropIdx [x] l = removeAt l x := by
+  have := dropIdx_removeAt x [] (by simp) l
+  rw [List.map_nil, dropIdx_nil_left] at this
+  exact this.symm
+
+/-! ### `removeAt` / `insertAt` on multi-indices -/
+
+theorem removeAt_inB : ∀ (s idx : List Nat) (x : Nat), InB s idx → InB (removeAt s x) (removeAt idx x)
+  | [], [], x, _ => by simp [removeAt, InB]
+  | v :: s, i :: idx, 0, h => by rw [removeAt_zero, removeAt_zero]; exact h.2
+  | v :: s, i :: idx, x + 1, h => by
+    rw [removeAt_succ, removeAt_succ]; exact ⟨h.1, removeAt_inB s idx x h.2⟩
+  | [], _ :: _, _, h => by simp [InB] at h
+  | _ :: _, [], _, h => by simp [InB] at h
+
+theorem removeAt_insertAt {β} : ∀ (k : List β) (x : Nat) (i : β), x ≤ k.length →
+    removeAt (insertAt k x i) x = k
+  | k, 0, i, _ => by rw [insertAt_zero, removeAt_zero]
+  | [], x + 1, i, h => by simp at h
+  | y :: k, x + 1, i, h => by
+    rw [insertAt_succ, removeAt_succ, removeAt_insertAt k x i (by simpa using h)]
+
+theorem getD_insertAt {β} : ∀ (k : List β) (x : Nat) (i d : β), x ≤ k.length →
+    (insertAt k x i).getD x d = i
+  | k, 0, i, d, _ => by rw [insertAt_zero]; rfl
+  | [], x + 1, i, d, h => by simp at h
+  | y :: k, x + 1, i, d, h => by
+    rw [insertAt_succ, List.getD_cons_succ, getD_insertAt k x i d (by simpa using h)]
+
+theorem insertAt_removeAt {β} : ∀ (l : List β) (x : Nat) (d : β), x < l.length →
+    insertAt (removeAt l x) x (l.getD x d) = l
+  | [], x, d, h => by simp at h
+  | y :: l, 0, d, _ => by rw [removeAt_zero, insertAt_zero]; rfl
+  | y :: l, x + 1, d, h => by
+    rw [removeAt_succ, insertAt_succ, List.getD_cons_succ, insertAt_removeAt l x d (by simpa using h)]
+
+theorem getD_lt_of_inB : ∀ (s idx : List Nat) (x : Nat), InB s idx → x < s.length →
+    idx.getD x 0 < s.getD x 0
+  | [], [], x, _, h => by simp at h
+  | v :: s, i :: idx, 0, h, _ => by simpa using h.1
+  | v :: s, i :: idx, x + 1, h, hx => by
+    rw [List.getD_cons_succ, List.getD_cons_succ]
+    exact getD_lt_of_inB s idx x h.2 (by simpa using hx)
+  | [], _ :: _, _, h, _ => by simp [InB] at h
+  | _ :: _, [], _, h, _ => by simp [InB] at h
+
+/-- On flat positions of the box, the multi-index determines the position. -/
+theorem unflat_eq_iff (s : List Nat) (idx : List Nat) (hidx : InB s idx) (t : Nat) (ht : t < size s) :
+    idx = unflat s t ↔ t = flat s idx := by
+  constructor
+  · intro h; rw [h, flat_unflat s t ht]
+  · intro h; rw [h, unflat_flat s idx hidx]
+
+/-! ### sums of indicator sums -/
+
+theorem sum_indicator_comp {α} [AddCommMonoid α] (S S' : Nat) (P : Nat → Prop) [DecidablePred P]
+    (Q : Nat → Nat → Prop) [∀ f t, Decidable (Q f t)] (g : Nat → α) (τ : Nat → Nat)
+    (hτ : ∀ f, f < S → τ f < S') (hQ : ∀ f, f < S → ∀ t, t < S' → (Q f t ↔ t = τ f)) :
+    ∑ t ∈ range S', (if P t then ∑ f ∈ range S, (if Q f t then g f else 0) else 0)
+      = ∑ f ∈ range S, if P (τ f) then g f else 0 := by
+  have h1 : ∀ t ∈ range S', (if P t then ∑ f ∈ range S, (if Q f t then g f else 0) else 0)
+      = ∑ f ∈ range S, (if t = τ f then (if P (τ f) then g f else 0) else 0) := by
+    intro t ht
+    have ht' := mem_range.mp ht
+    by_cases hp : P t
+    · rw [if_pos hp]
+      apply Finset.sum_congr rfl
+      intro f hf
+      have hq := hQ f (mem_range.mp hf) t ht'
+      by_cases he : t = τ f
+      · rw [if_pos (hq.mpr he), if_pos he, if_pos (he ▸ hp)]
+      · rw [if_neg (fun h => he (hq.mp h)), if_neg he]
+    · rw [if_neg hp]
+      symm
+      apply Finset.sum_eq_zero
+      intro f _
+      by_cases he : t = τ f
+      · rw [if_pos he, if_neg (he ▸ hp)]
+      · rw [if_neg he]
+  rw [Finset.sum_congr rfl h1, Finset.sum_comm]
+  apply Finset.sum_congr rfl
+  intro f hf
+  rw [Finset.sum_ite_eq', if_pos (mem_range.mpr (hτ f (mem_range.mp hf)))]
+
+theorem sum_indicator_mass {α} [AddCommMonoid α] (S S' : Nat)
+    (Q : Nat → Nat → Prop) [∀ f t, Decidable (Q f t)] (g : Nat → α) (τ : Nat → Nat)
+    (hτ : ∀ f, f < S → τ f < S') (hQ : ∀ f, f < S → ∀ t, t < S' → (Q f t ↔ t = τ f)) :
+    ∑ t ∈ range S', ∑ f ∈ range S, (if Q f t then g f else 0) = ∑ f ∈ range S, g f := by
+  have := sum_indicator_comp S S' (fun _ => True) Q g τ hτ hQ
+  simpa using this
+
+theorem list_eq_map_getD {β} (l : List β) (d : β) : l = (List.range l.length).map (fun i => l.getD i d) := by
+  apply List.ext_getElem
+  · simp
+  · intro i h1 h2
+    simp [List.getD_eq_getElem?_getD, List.getElem?_eq_getElem h1]
+
+theorem list_sum_eq_sum_getD {α} [AddCommMonoid α] (l : List α) :
+    l.sum = ∑ i ∈ range l.length, l.getD i 0 := by
+  conv_lhs => rw [list_eq_map_getD l 0]
+  exact list_range_sum _ _
+
+/-! ### one `Array::sum` step in indicator form -/
+
+theorem sumAxis_indicator {α} [AddCommMonoid α] (a : Arr α) (x : Nat)
+    (hlen : a.data.length = size a.shape) (hx : x < a.shape.length) :
+    (a.sumAxis x).shape = removeAt a.shape x ∧
+    (a.sumAxis x).data = (List.range (size (removeAt a.shape x))).map (fun t =>
+      ∑ f ∈ range (size a.shape),
+        if removeAt (unflat a.shape f) x = unflat (removeAt a.shape x) t then a.data.getD f 0 else 0) := by
+  obtain ⟨hs, hd⟩ := C19.sumAxis_eq a x hlen hx
+  refine ⟨hs, ?_⟩
+  rw [hd]
+  apply List.map_congr_left
+  intro t ht
+  have ht' : t < size (removeAt a.shape x) := List.mem_range.mp ht
+  have hk : InB (removeAt a.shape x) (unflat (removeAt a.shape x) t) := unflat_inB _ _ ht'
+  have hkl : x ≤ (unflat (removeAt a.shape x) t).length := by
+    rw [InB_length _ _ hk, removeAt_length _ _ hx]; omega
+  rw [← Finset.sum_filter]
+  apply Finset.sum_nbij' (fun i => flat a.shape (insertAt (unflat (removeAt a.shape x) t) x i))
+    (fun f => (unflat a.shape f).getD x 0)
+  · intro i hi
+    have hb := insertAt_inB a.shape x _ i hx (mem_range.mp hi) hk
+    simp only [mem_filter, mem_range]
+    refine ⟨flat_lt _ _ hb, ?_⟩
+    rw [unflat_flat _ _ hb, removeAt_insertAt _ _ _ hkl]
+  · intro f hf
+    simp only [mem_filter, mem_range] at hf
+    exact mem_range.mpr (getD_lt_of_inB _ _ x (unflat_inB _ _ hf.1) hx)
+  · intro i hi
+    have hb := insertAt_inB a.shape x _ i hx (mem_range.mp hi) hk
+    simp only []
+    rw [unflat_flat _ _ hb, getD_insertAt _ _ _ _ hkl]
+  · intro f hf
+    simp only [mem_filter, mem_range] at hf
+    have hb := unflat_inB _ _ hf.1
+    simp only []
+    rw [← hf.2, insertAt_removeAt _ _ _ (by rw [InB_length _ _ hb]; exact hx), flat_unflat _ _ hf.1]
+  · intro i _
+    simp only [C19.viewElem, List.getD_eq_getElem?_getD]
+
+theorem sumAxis_data_length {α} [AddCommMonoid α] (a : Arr α) (x : Nat)
+    (hlen : a.data.length = size a.shape) (hx : x < a.shape.length) :
+    (a.sumAxis x).data.length = size (a.sumAxis x).shape := by
+  obtain ⟨hs, hd⟩ := sumAxis_indicator a x hlen hx
+  rw [hs, hd]; simp
+
+/-- position of the reduced index of `f` -/
+theorem removeAt_unflat_eq_iff (s : List Nat) (x f t : Nat) (hf : f < size s)
+    (ht : t < size (removeAt s x)) :
+    removeAt (unflat s f) x = unflat (removeAt s x) t ↔ t = flat (removeAt s x) (removeAt (unflat s f) x) :=
+  unflat_eq_iff _ _ (removeAt_inB _ _ x (unflat_inB _ _ hf)) t ht
+
+theorem sumAxis_mass {α} [AddCommMonoid α] (a : Arr α) (x : Nat)
+    (hlen : a.data.length = size a.shape) (hx : x < a.shape.length) :
+    (a.sumAxis x).data.sum = a.data.sum := by
+  obtain ⟨_, hd⟩ := sumAxis_indicator a x hlen hx
+  rw [hd, list_range_sum, list_sum_eq_sum_getD a.data, hlen]
+  exact sum_indicator_mass _ _ _ _ (fun f => flat (removeAt a.shape x) (removeAt (unflat a.shape f) x))
+    (fun f hf => flat_lt _ _ (removeAt_inB _ _ x (unflat_inB _ _ hf)))
+    (fun f hf t ht => removeAt_unflat_eq_iff _ _ _ _ hf ht)
+
 end Sfs
